@@ -1,3 +1,95 @@
 From AB Require Import Desc Generated GeneratedWf.
+From AB Require Import Tree TreeDefs TreeProofs TreeProofs4 TreeRun TreeFacts.
+From Coq Require Import ZArith List Bool.
+Import ListNotations.
+
 Theorem C20_generated_classes_wf : forall c, In c classes -> wf_desc c = true.
 Proof. exact generated_wf_each. Qed.
+
+(* wf_tree is the part of wf_desc the tree functions depend on (also holds for the hand-written
+   NumberAddExpr / NumberMulExpr descriptors of TreeRun.all_classes) *)
+Theorem C20_wf_desc_implies_wf_tree : forall c, wf_desc c = true -> wf_tree c = true.
+Proof. exact wf_desc_wf_tree. Qed.
+Theorem C20_classes_ok_generated : classes_ok classes.
+Proof. exact classes_ok_generated. Qed.
+Theorem C20_classes_ok_all : classes_ok all_classes.
+Proof. exact classes_ok_all. Qed.
+
+(* 1. == is symmetric, for any class list (no hypothesis on classes: if the class names differ both
+   directions are false), for nodes that have one child per field name *)
+Theorem C20_sym : forall cs a b,
+  keys_ok a = true -> keys_ok b = true -> node_eq cs a b = node_eq cs b a.
+Proof. exact node_eq_sym. Qed.
+Example C20_sym_hyps : keys_ok ex_open = true /\ keys_ok ex_open_other = true /\ keys_ok ex_open_num = true.
+Proof. exact ex_keys_ok. Qed.
+(* in particular on conforming nodes (conforms => keys_ok) *)
+Theorem C20_sym_conforms : forall cs a b,
+  conforms cs a = true -> conforms cs b = true -> node_eq cs a b = node_eq cs b a.
+Proof. exact node_eq_sym_conforms. Qed.
+(* the hypothesis cannot be dropped in the model (a duplicated field name on one side) *)
+Theorem C20_sym_needs_keys_ok : exists cs a b, node_eq cs a b <> node_eq cs b a.
+Proof. exact keys_ok_needed. Qed.
+
+(* 2. equal => same type, same token (rule, text) list, same printed text *)
+Theorem C20_eq_type : forall cs a b, node_eq cs a b = true -> node_type a = node_type b.
+Proof. exact node_eq_type. Qed.
+Theorem C20_eq_toks : forall cs a b,
+  node_eq cs a b = true -> toks_eqb (node_toks a) (node_toks b) = true.
+Proof. exact node_eq_toks. Qed.
+Theorem C20_eq_text : forall cs a b,
+  node_eq cs a b = true -> text_of (node_toks a) = text_of (node_toks b).
+Proof. exact node_eq_text. Qed.
+(* tokens: == is exactly equality of the hashed key (RULE, raw_text) *)
+Theorem C20_token_eq_hash : forall cs x y,
+  node_eq cs (Leaf x) (Leaf y) = true <-> tk_hash_key x = tk_hash_key y.
+Proof. exact leaf_eq_iff. Qed.
+
+(* 3. no forgotten field: for a class following the scheme, == implies same class, equal token
+   lists, both nodes have EVERY declared field and the children are pairwise equal (slot_eq is the
+   sub-call of node_eq), and every data field is equal *)
+Theorem C20_eq_complete : forall cs c ca sa ta ka da cb sb tb kb db,
+  find_class cs ca = Some c -> wf_tree c = true ->
+  node_eq cs (Tree ca sa ta ka da) (Tree cb sb tb kb db) = true ->
+  ca = cb /\ toks_eqb ta tb = true
+  /\ (forall f, In f (c_fields c) -> field_rel (node_eq cs) ka kb (f_name f))
+  /\ (forall d, In d (c_data c) -> datum da d = datum db d).
+Proof. exact node_eq_complete. Qed.
+Theorem C20_eq_complete_generated : forall c ca sa ta ka da cb sb tb kb db,
+  find_class classes ca = Some c ->
+  node_eq classes (Tree ca sa ta ka da) (Tree cb sb tb kb db) = true ->
+  ca = cb /\ toks_eqb ta tb = true
+  /\ (forall f, In f (c_fields c) -> field_rel (node_eq classes) ka kb (f_name f))
+  /\ (forall d, In d (c_data c) -> datum da d = datum db d).
+Proof.
+  exact (fun c ca sa ta ka da cb sb tb kb db H =>
+           node_eq_complete classes c ca sa ta ka da cb sb tb kb db H
+             (classes_ok_generated c (proj1 (find_class_In _ _ _ H)))).
+Qed.
+(* conversely nothing else is compared *)
+Theorem C20_eq_sound : forall cs c ca sa ta ka da sb tb kb db,
+  find_class cs ca = Some c -> wf_tree c = true -> NoDup (map fst ka) ->
+  toks_eqb ta tb = true ->
+  (forall f, In f (c_fields c) -> field_rel (node_eq cs) ka kb (f_name f)) ->
+  (forall d, In d (c_data c) -> datum da d = datum db d) ->
+  node_eq cs (Tree ca sa ta ka da) (Tree ca sb tb kb db) = true.
+Proof. exact node_eq_sound. Qed.
+Theorem C20_eq_exact : forall cs c ca sa ta ka da cb sb tb kb db,
+  find_class cs ca = Some c -> wf_tree c = true -> NoDup (map fst ka) ->
+  (node_eq cs (Tree ca sa ta ka da) (Tree cb sb tb kb db) = true
+   <-> ca = cb /\ toks_eqb ta tb = true
+       /\ (forall f, In f (c_fields c) -> field_rel (node_eq cs) ka kb (f_name f))
+       /\ (forall d, In d (c_data c) -> datum da d = datum db d)).
+Proof. exact node_eq_exact. Qed.
+Example C20_eq_exact_hyps :
+  find_class classes "Open" = Some c_Open /\ wf_tree c_Open = true
+  /\ node_eq classes ex_open ex_open = true /\ node_eq classes ex_open ex_open_other = false
+  /\ node_eq classes ex_open_other ex_open = false.
+Proof. vm_compute. auto. Qed.
+
+(* 4. reflexive on conforming nodes *)
+Theorem C20_refl : forall cs, classes_ok cs ->
+  forall a, conforms cs a = true -> node_eq cs a a = true.
+Proof. exact node_eq_refl. Qed.
+Example C20_refl_hyps : conforms classes ex_open = true /\ conforms classes ex_open_other = true
+                        /\ conforms all_classes ex_open_num = true.
+Proof. exact ex_conforms. Qed.
